@@ -23,6 +23,8 @@ place() {
     [ -z "$dest" ] && dest=$(grep -o "[a-zA-Z0-9_/]*$b" "$SRC/demo.txt" | grep / | head -1)
     [ -z "$dest" ] && dest="core/$b"
     dest=${dest#/tmp/wt-*/}
+    dest=${dest#<worktree>/}
+    dest=${dest#/}
     mkdir -p "$(dirname "$dest")"; cp "$f" "$dest"; echo "$dest"
   done
 }
